@@ -446,7 +446,7 @@ where
     let mut best_r = render;
     let mut budget: i64 = std::env::var("VERIF_SHRINK_BUDGET").ok().and_then(|s| s.parse().ok()).unwrap_or(3000);
     let deadline = Instant::now() + std::time::Duration::from_secs(120);
-    let mut try_tape = |cand: Vec<u64>, best: &mut Vec<u64>, best_v: &mut Violation, best_r: &mut Value, budget: &mut i64| -> bool {
+    let try_tape = |cand: Vec<u64>, best: &mut Vec<u64>, best_v: &mut Violation, best_r: &mut Value, budget: &mut i64| -> bool {
         if *budget <= 0 || Instant::now() > deadline {
             return false;
         }
